@@ -163,7 +163,7 @@ func c03nraw(t *tree.Tree) int {
 func c03step(cur **tree.Tree, originals *[]*tree.Tree, held *tree.Rearrangement, c *Sexp) (obs *Sexp, goOn bool) {
 	t := *cur
 	switch c.Str("op") {
-	case "sort", "rotate", "reroot", "nni_release":
+	case "sort", "rotate", "reroot", "nni_apply_held", "nni_release":
 	default:
 		*held = nil
 	}
@@ -277,6 +277,27 @@ func c03step(cur **tree.Tree, originals *[]*tree.Tree, held *tree.Rearrangement,
 				}
 				return false
 			})
+		}
+	case "nni_collect":
+		// keep the k-th proposal without applying it
+		k := c.Int("k")
+		r := &tree.NNIRearranger{}
+		count := 0
+		r.Rearrange(t, func(re tree.Rearrangement) bool { count++; return true })
+		if count > 0 {
+			target, idx := k%count, 0
+			r.Rearrange(t, func(re tree.Rearrangement) bool {
+				if idx != target {
+					idx++
+					return true
+				}
+				*held = re
+				return false
+			})
+		}
+	case "nni_apply_held":
+		if *held != nil {
+			operr = (*held).Apply()
 		}
 	case "nni_release":
 		if *held != nil {
